@@ -627,10 +627,37 @@ impl GRLParser {
 
     fn clean_text(&self, text: &str) -> String {
         text.lines()
-            .map(|line| line.trim())
-            .filter(|line| !line.is_empty() && !line.starts_with("//"))
+            .map(|line| Self::strip_line_comment(line).trim())
+            .filter(|line| !line.is_empty())
             .collect::<Vec<_>>()
             .join(" ")
+    }
+
+    /// Cut a `//` comment off a line (the whole line, or its tail after some code);
+    /// a `//` inside a string literal is part of the string
+    fn strip_line_comment(line: &str) -> &str {
+        let mut quote: Option<char> = None;
+        let mut prev_slash = false;
+        for (i, ch) in line.char_indices() {
+            match quote {
+                Some(q) => {
+                    if ch == q {
+                        quote = None;
+                    }
+                    prev_slash = false;
+                }
+                None => {
+                    if ch == '/' && prev_slash {
+                        return &line[..i - 1];
+                    }
+                    if ch == '"' || ch == '\'' {
+                        quote = Some(ch);
+                    }
+                    prev_slash = ch == '/';
+                }
+            }
+        }
+        line
     }
 
     fn parse_when_clause(&self, when_clause: &str) -> Result<ConditionGroup> {
